@@ -230,9 +230,11 @@ func ruleR191(c *Ctx) {
 // reachEval decides for a concrete (lastTokenType, lastWasBlank) whether a
 // statement list executes the send of the implicit '*' token.
 type reachEval struct {
-	c    *Ctx
-	info *types.Info
-	env  map[string]constant.Value // variable name -> value
+	c     *Ctx
+	info  *types.Info
+	env   map[string]constant.Value // variable name -> value
+	root  ast.Node                  // function in which single definition locals are resolved
+	depth int
 }
 
 func (e *reachEval) tri(x ast.Expr) int {
@@ -250,6 +252,17 @@ func (e *reachEval) tri(x ast.Expr) int {
 				return 1
 			}
 			return 0
+		}
+		// a local that names a condition: implicitMul := lastTokenType == tNumber || ...
+		if e.root != nil && e.depth < 3 {
+			if obj := e.info.ObjectOf(t); obj != nil && countAssignments(e.info, e.root, obj) == 1 {
+				if as, i := definingAssign(e.info, e.root, obj); as != nil && len(as.Lhs) == len(as.Rhs) {
+					e.depth++
+					r := e.tri(as.Rhs[i])
+					e.depth--
+					return r
+				}
+			}
 		}
 	case *ast.UnaryExpr:
 		if t.Op == token.NOT {
@@ -463,7 +476,7 @@ func ruleR193(c *Ctx) {
 		undecided := false
 		for _, last := range kinds {
 			for _, blank := range []bool{false, true} {
-				ev := &reachEval{c: c, info: info, env: map[string]constant.Value{"lastTokenType": constOf(last), "lastWasBlank": constant.MakeBool(blank)}}
+				ev := &reachEval{c: c, info: info, root: ta.run, env: map[string]constant.Value{"lastTokenType": constOf(last), "lastWasBlank": constant.MakeBool(blank)}}
 				got, _ := ev.sends(s.stmts)
 				if got == -1 {
 					undecided = true
@@ -488,30 +501,49 @@ func ruleR193(c *Ctx) {
 // identTail returns the statements of the identifier branch that run for a plain identifier
 // (else branches of the text operator and keyword tests).
 func identTail(info *types.Info, stmts []ast.Stmt) []ast.Stmt {
-	mentionsEnv := func(e ast.Expr) bool {
-		return containsNode(e, func(n ast.Node) bool {
-			id, ok := n.(*ast.Ident)
-			return ok && (id.Name == "lastTokenType" || id.Name == "lastWasBlank")
-		})
-	}
-	for _, s := range stmts {
-		ifs, ok := s.(*ast.IfStmt)
-		if !ok || mentionsEnv(ifs.Cond) {
-			continue
-		}
-		// if to, ok := t.textOperators[image]; ok {...} else { if t.keyWord[image] {...} else { <plain identifier> } }
-		cur := ifs
-		for cur.Else != nil {
-			blk, ok := cur.Else.(*ast.BlockStmt)
-			if !ok || len(blk.List) == 0 {
-				break
+	// the statement list that decides about the '*': the innermost list, following else branches of the
+	// text operator / keyword tests, that holds the send or the if statement whose body holds it directly
+	direct := func(list []ast.Stmt) bool {
+		for _, s := range list {
+			if isStarSend(info, s) {
+				return true
 			}
-			inner, ok := blk.List[0].(*ast.IfStmt)
-			if !ok || mentionsEnv(inner.Cond) {
-				return blk.List
+			if ifs, ok := s.(*ast.IfStmt); ok {
+				for _, b := range ifs.Body.List {
+					if isStarSend(info, b) {
+						return true
+					}
+				}
 			}
-			cur = inner
+			if sw, ok := s.(*ast.SwitchStmt); ok {
+				for _, cl := range sw.Body.List {
+					for _, b := range cl.(*ast.CaseClause).Body {
+						if isStarSend(info, b) {
+							return true
+						}
+					}
+				}
+			}
 		}
+		return false
 	}
-	return stmts
+	cur := stmts
+	for depth := 0; depth < 6 && !direct(cur); depth++ {
+		var next []ast.Stmt
+		for _, s := range cur {
+			if ifs, ok := s.(*ast.IfStmt); ok && ifs.Else != nil {
+				switch e := ifs.Else.(type) {
+				case *ast.BlockStmt:
+					next = e.List
+				case *ast.IfStmt:
+					next = []ast.Stmt{e}
+				}
+			}
+		}
+		if next == nil {
+			return stmts
+		}
+		cur = next
+	}
+	return cur
 }
